@@ -110,6 +110,9 @@ func parse(argsVal vals.List, specsVal vals.List) (vals.Map, vals.List, error) {
 			value       any
 			description string
 		)
+		if spec == nil {
+			return nil, nil, errs.BadValue{What: "spec", Valid: "list", Actual: "$nil"}
+		}
 		vals.ScanListElementsToGo(spec, &name, &value, &description)
 		err := addFlag(fs, name, value, description)
 		if err != nil {
@@ -227,6 +230,12 @@ func (o *parseGetoptOptions) Config() getopt.Config {
 }
 
 func parseGetopt(opts parseGetoptOptions, argsVal vals.List, specsVal vals.List) (vals.List, vals.List, error) {
+	if argsVal == nil {
+		return nil, nil, errs.BadValue{What: "arguments", Valid: "list", Actual: "$nil"}
+	}
+	if specsVal == nil {
+		return nil, nil, errs.BadValue{What: "specs", Valid: "list", Actual: "$nil"}
+	}
 	var args []string
 	err := vals.ScanListToGo(argsVal, &args)
 	if err != nil {
@@ -241,6 +250,9 @@ func parseGetopt(opts parseGetoptOptions, argsVal vals.List, specsVal vals.List)
 	specs := make([]*getopt.OptionSpec, len(specMaps))
 	originalSpecMap := make(map[*getopt.OptionSpec]vals.Map)
 	for i, specMap := range specMaps {
+		if specMap == nil {
+			return nil, nil, errs.BadValue{What: "spec", Valid: "map", Actual: "$nil"}
+		}
 		var s specStruct
 		vals.ScanToGoOpts(specMap, &s, vals.AllowMissingMapKey|vals.AllowExtraMapKey)
 		spec, err := s.OptionSpec()
